@@ -669,6 +669,13 @@ func (g *generator) extractDefault(v cue.Value) (any, error) {
 }
 
 func (g *generator) declareStringConstraints(v cue.Value) ([]ast.TypeConstraint, error) {
+	// if the string has a default value, strip it from `v` before trying to extract constraints.
+	_, hasDefault := v.Default()
+	if hasDefault {
+		_, dvals := v.Expr()
+		v = dvals[0]
+	}
+
 	typeAndConstraints := appendSplit(nil, cue.AndOp, v)
 
 	// nothing to do
